@@ -5,6 +5,7 @@ import (
 	"sort"
 	"strings"
 
+	cache "github.com/fufuok/cache"
 	vtime "github.com/fufuok/cache/internal/vshim/time"
 	"github.com/fufuok/cache/internal/xsync"
 )
@@ -368,10 +369,27 @@ func bulkSpec(name string, kind int, hint int, seed uint64, n int, depth int, co
 		opts = append(opts, extra...)
 		switch kind {
 		case 0:
-			m = mapAdapter{m: xsync.NewMap(opts...)}
+			// through the exported constructors of package cache where they can express the configuration
+			switch {
+			case len(extra) > 0:
+				m = mapAdapter{m: xsync.NewMap(opts...)}
+			case hint != 0:
+				m = mapAdapter{m: cache.NewMapPresized(hint).(*xsync.Map)}
+			default:
+				m = mapAdapter{m: cache.NewMap().(*xsync.Map)}
+			}
 		case 1:
 			id := func(x int) int { return x }
-			m = mapOfAdapter[int, int]{m: xsync.NewMapOf[int, int](opts...), toK: id, fromK: id, toV: id, fromV: id}
+			var xm *xsync.MapOf[int, int]
+			switch {
+			case len(extra) > 0:
+				xm = xsync.NewMapOf[int, int](opts...)
+			case hint != 0:
+				xm = cache.NewMapOfPresized[int, int](hint).(*xsync.MapOf[int, int])
+			default:
+				xm = cache.NewMapOf[int, int]().(*xsync.MapOf[int, int])
+			}
+			m = mapOfAdapter[int, int]{m: xm, toK: id, fromK: id, toV: id, fromV: id}
 		case 2, 3:
 			vtime.VEnable(epochNs)
 			vtime.VCaptureTickers(true)
